@@ -1,7 +1,7 @@
 (* C17 — Emitted bytecode is well formed and the VM cannot be crashed.
    Property theorems only; proofs are [exact <lemma>]. *)
 From Coq Require Import ZArith NArith List String.
-From EvyV Require Import Base SymTab SymTabProofs Bytecode BytecodeProofs Vm VmProofs Compile CompileSem CompileWfProofs CompileSymProofs CompileCtlProofs CompileCoverProofs.
+From EvyV Require Import Base SymTab SymTabProofs Bytecode BytecodeProofs Vm VmProofs Compile CompileSem CompileWfProofs CompileSymProofs CompileCtlProofs CompileCoverProofs LocalInit LocalInitProofs.
 Require Import EvyV.Gen.Opcodes.
 Import ListNotations.
 Open Scope N_scope.
@@ -39,6 +39,49 @@ Theorem C17_wf_vm_safe_partial : forall (p : program), WF (info_of p) ->
     end.
 Proof. exact wf_vm_safe_partial. Qed.
 Print Assumptions C17_wf_vm_safe_partial.
+
+(* The model Vm.v has value semantics for arrays and maps: its OpSetIndex pops
+   and checks, the store itself — visible on the real VM through every alias
+   of the array / map object — is not performed.  So that the safety theorem
+   does not silently depend on that, here it is with the effect
+   over-approximated: reachable_h lets the CONTENTS of every array and map in
+   the machine state (operand stack, locals, globals) change arbitrarily
+   between any two steps (VmProofs.perturbed: ip, the positions of all values,
+   and all numbers, booleans and strings stay).  The intended reading — an
+   argument, not a theorem, the real VM has no formal heap here —: every state
+   of the real VM, read as values, is such a state.  The conclusion is the
+   same: the safety argument never looks into an array or a map. *)
+Theorem C17_wf_vm_safe_heap_partial : forall (p : program), WF (info_of p) ->
+  forall s, reachable_h p s ->
+    plcount p <= sp_of s /\
+    match vm_step p s with
+    | Running _ | Failed _ => True
+    | Halted s' => ip s' = N.of_nat (List.length (pcode p)) /\ sp_of s' = plcount p
+    | Crashed c => c = CType
+    end.
+Proof. exact wf_vm_safe_heap_partial. Qed.
+Print Assumptions C17_wf_vm_safe_heap_partial.
+
+(* ---------- definite initialisation of local slots ---------- *)
+(* WF bounds the operand of OpGetLocal / OpSetLocal by LocalCount; it does not
+   say that a slot is written before it is read.  A read of a slot nothing has
+   written yields the nil the VM created the slot with, and the next pop
+   dereferences it: a host crash (in the model: VNil, then the type-directed
+   crash C17_wf_vm_safe_partial leaves open).  linit_check (LocalInit.v) is a
+   second validator for exactly that: it accepts a program only if on every
+   static path from the entry to an OpGetLocal a an OpSetLocal a has been
+   executed.  Sound against the VM model: on a well-formed program it accepts,
+   in every run (reach_w carries the operands of the OpSetLocal executed so
+   far) the machine never is about to execute an OpGetLocal whose slot is not
+   among them.  The C17 harness runs it on every program the real compiler
+   emits.  (Not proved: that the compiler's output always passes — established
+   per emitted program by this validator, like WF before compile_wf_all.) *)
+Theorem C17_linit_safe : forall (p : program), WF (info_of p) -> linit_check (info_of p) = true ->
+  forall s w, reach_w p s w ->
+  forall i, fetch p s = Some i -> ip s < N.of_nat (List.length (pcode p)) ->
+            opc_of_N (iop i) = Some GetLocal -> In (arg0 i) w.
+Proof. exact linit_safe. Qed.
+Print Assumptions C17_linit_safe.
 
 (* Before 208ef1c `executing well-formed bytecode never crashes the host` was
    false: `a := [1 2] * 1000000000000000000` compiles to bytecode the validator
@@ -135,11 +178,12 @@ Print Assumptions C17_compile_wf_all.
 (* … and the second half on top of it: the VM model cannot be crashed through
    the stack, an operand or a jump by anything the compiler emits (_partial as
    C17_wf_vm_safe_partial: a type-directed crash is excluded only by the typed
-   simulation of C16). *)
+   simulation of C16) — stated over reachable_h, i.e. with the heap effect of
+   the element stores the program may contain over-approximated. *)
 Theorem C17_compile_vm_safe_all_partial : forall (p : slist) (st : cstate),
   compile p = COk st -> wplain_slist p = true -> nb_slist p = true ->
   let prog := program_of (bytecode_of st) in
-  forall s, reachable prog s ->
+  forall s, reachable_h prog s ->
     plcount prog <= sp_of s /\
     match vm_step prog s with
     | Running _ | Failed _ => True
@@ -147,7 +191,7 @@ Theorem C17_compile_vm_safe_all_partial : forall (p : slist) (st : cstate),
     | Crashed c => c = CType
     end.
 Proof.
-  intros p st HC HP HB prog. apply wf_vm_safe_partial.
+  intros p st HC HP HB prog. apply wf_vm_safe_heap_partial.
   unfold prog, info_of, program_of. cbn [pcode pconsts pgcount plcount]. rewrite map_length.
   apply (compile_wf_total p st HC HP HB).
 Qed.
@@ -301,6 +345,20 @@ Example C17_ex_stores :
       | FHalted s => ostack s = [] /\ nth_error (globals s) 2 = Some (VNum (float_of_Z 1))
       | _ => False
       end
+  | CErr _ => False
+  end.
+Proof. vm_compute. repeat split; reflexivity. Qed.
+
+
+(* read before write: OpGetLocal 0; OpSetLocal 0 with LocalCount 1 is well formed and fails linit_check;
+   the compiled examples pass it *)
+Example C17_ex_linit :
+  let bad := {| bcode := [N_of_opc GetLocal; 0; 0; N_of_opc SetLocal; 0; 0]; nconsts := 0; gcount := 0; lcount := 1 |} in
+  wf_check bad = true /\ linit_check bad = false /\
+  match compile ex_stores with
+  | COk st => let bc := bytecode_of st in
+              linit_check {| bcode := out_code bc; nconsts := N.of_nat (List.length (out_consts bc));
+                             gcount := out_gcount bc; lcount := out_lcount bc |} = true
   | CErr _ => False
   end.
 Proof. vm_compute. repeat split; reflexivity. Qed.
